@@ -45,6 +45,7 @@ type Gen struct {
 	stats map[string]int
 	cliFocus string // C15: the <id> the next `info` should look at
 	partHeavy    bool // this history is about partitions: half of its objects are partitions of all four types
+	noGrow       bool // the image's descriptor table lies behind its data section: the history does not add objects (the library lays new data out on the assumption that nothing follows the data section)
 	promoteLow   bool // slot 1 holds a system partition, slot 2 the primary one: promote the lower one
 	bigFirst     bool // this history starts with an object of over 1 MiB followed by small ones, and deletes it with zeroing
 	afterCompact bool // the previous op was a compacting delete without zeroing (storage shrank, old bytes may linger)
@@ -299,6 +300,7 @@ func (g *Gen) createOp() *Op {
 	r := g.r
 	op := &Op{Kind: "create", Backend: pick(r, g.p.Backends)}
 	g.partHeavy = r.Chance(1, 5)
+	g.noGrow = false
 	if g.partHeavy {
 		g.count("history:partition-heavy")
 	}
@@ -507,7 +509,7 @@ func (g *Gen) nextOp(f *sif.FileImage) *Op {
 	r := g.r
 	in := inspect(f)
 	reject := r.Intn(1000) < g.p.Rejects
-	if g.p.Sign > 0 && r.Intn(1000) < g.p.Sign && len(in.groups) > 0 {
+	if g.p.Sign > 0 && !g.noGrow && r.Intn(1000) < g.p.Sign && len(in.groups) > 0 {
 		// ed25519 DSSE signatures are deterministic: the whole image stays reproducible
 		u := getUniverse()
 		k := 100
@@ -547,7 +549,7 @@ func (g *Gen) nextOp(f *sif.FileImage) *Op {
 		}
 		return &Op{Kind: "sign", S: so}
 	}
-	if g.afterCompact {
+	if g.afterCompact && !g.noGrow {
 		g.afterCompact = false
 		if r.Chance(1, 2) {
 			// right after storage shrank: an object whose alignment skips over a gap, so that
@@ -579,6 +581,9 @@ func (g *Gen) nextOp(f *sif.FileImage) *Op {
 	x := r.Intn(100)
 	if g.partHeavy && len(in.parts) > 0 && r.Chance(1, 4) {
 		x = 64 // set-primary
+	}
+	if g.noGrow && x < 42 {
+		x = 42 + r.Intn(48) // delete / set-* instead of add
 	}
 	switch {
 	case x < 42:
@@ -630,7 +635,7 @@ func (g *Gen) nextOp(f *sif.FileImage) *Op {
 			op.Sel = pick(r, []Sel{{Kind: "id", N: 0}, {Kind: "grp", N: 0}, {Kind: "grp", N: 77}, {Kind: "lid", N: 0}, {Kind: "lgid", N: 0}})
 			g.count("reject:del-" + op.Sel.String())
 		}
-		if g.p.Readd && op.Sel.Kind == "id" && len(in.ids) > 0 && r.Chance(1, 6) {
+		if g.p.Readd && !g.noGrow && op.Sel.Kind == "id" && len(in.ids) > 0 && r.Chance(1, 6) {
 			// replace an object by itself: its bytes are fetched with GetData and kept, the object
 			// is deleted (zeroing / compacting), and the kept bytes are added as a new object
 			op.Kind, op.ID = "readd", pick(r, in.ids)
